@@ -12,7 +12,7 @@
 EXTENDS MeiLayer
 CONSTANTS MaxEvents, Durs
 VARIABLES n, phase, cnt
-mcvars == <<mpos, mbar, mfar, mtup, mstaff, mlayer, meter, mnotes, mties, mopen, mmeasures, mdefs, mbad, n, phase, cnt>>
+mcvars == <<mpos, mbar, mfar, mtup, mstaff, mlayer, meter, mnotes, mties, mopen, mmeasures, mdefs, mrep, mend, mright, mbad, n, phase, cnt>>
 Ev(kind) == [ev |-> kind, n |-> 0, s |-> "", a |-> 0, b |-> 0, c |-> 0, d |-> 0, id |-> "", id2 |-> "", notes |-> <<>>]
 Id == "x" \o ToString(cnt)
 Pitch == <<"C", 0, 4>>
@@ -22,7 +22,8 @@ EndsHere == OpenHere # 0 /\ (LET q == mnotes[Idx(mopen[OpenHere][2])] IN REq(RAd
 MCInit == MInit /\ n = 0 /\ phase = "top" /\ cnt = 1
 Step == n' = n + 1
 Keep == phase' = phase /\ cnt' = cnt
-MCMeasure == phase = "top" /\ Len(mmeasures) < 2 /\ Measure([Ev("measure") EXCEPT !.s = "1"]) /\ phase' = "measure" /\ cnt' = cnt /\ Step
+MCMeasure == phase = "top" /\ Len(mmeasures) < 2
+             /\ (\E lft \in {"", "rptstart"}, rgt \in {"", "rptend"} : (lft = "rptstart" => OpenRep = 0) /\ Measure([Ev("measure") EXCEPT !.s = "1", !.id = lft, !.id2 = rgt])) /\ phase' = "measure" /\ cnt' = cnt /\ Step
 MCEndMeasure == phase = "measure" /\ EndMeasureM /\ phase' = "top" /\ cnt' = cnt /\ Step
 MCStaff == phase = "measure" /\ (\E s \in {1, 2} : Staff([Ev("staff") EXCEPT !.n = s])) /\ phase' = "staff" /\ cnt' = cnt /\ Step
 MCLayer == phase = "staff" /\ (\E k \in {1, 2} : Layer([Ev("layer") EXCEPT !.n = k])) /\ phase' = "layer" /\ cnt' = cnt /\ Step
@@ -42,6 +43,7 @@ MCMRest == phase = "layer" /\ mpos = mbar /\ MRest([Ev("mrest") EXCEPT !.id = Id
 MCNext == n < MaxEvents /\ (MCMeasure \/ MCEndMeasure \/ MCStaff \/ MCLayer \/ MCEndLayer \/ MCTuplet \/ MCNote \/ MCRest \/ MCMRest)
 MCSpec == MCInit /\ [][MCNext]_mcvars
 NoRuleBrokenM == mbad = {}
+RepeatsWellFormed == \A i \in 1..Len(mrep) : mrep[i].to = Open \/ RLeq(mrep[i].from, mrep[i].to)
 MeasureAsLongAsLongestLayer ==
    (phase = "top" /\ Len(mmeasures) > 0) =>
       LET m == mmeasures[Len(mmeasures)] IN \A i \in 1..Len(mnotes) : RLeq(m.start, mnotes[i].on) => RLeq(RAdd(mnotes[i].on, mnotes[i].dur), m.end)
